@@ -16,9 +16,10 @@ Inductive cls := cSO2 | cSE2 | cSO3 | cSE3 | cUQ | cTw2 | cTw3.
    defect beyond the 1e-6 band.  Reflect: orthogonal with determinant -1.  BadRow: last row of a homogeneous matrix
    is not (0,..,0,1).  NotAlgebra: 4x4 / 3x3 given to a twist class that is not an augmented skew-symmetric matrix.
    WrongShape: an array of a shape the class has no use for.  AltForm: a documented alternative argument form
-   (SO2(vector of angles), SE2(2- or 3-vector), SE3(3-vector), SE3(Nx3 translations), UnitQuaternion(Nx4 rows, N <> 4))
-   -- not an invalid value. *)
-Inductive tag := Valid | NotOrtho | Reflect | BadRow | NotAlgebra | WrongShape | AltForm.
+   (SO2(vector of angles), SE2(2- or 3-vector), SE3(3-vector), SE3(Nx3 translations), UnitQuaternion(N x 4 array of
+   quaternion rows -- including a 4x4 array that is not a valid homogeneous matrix: four rows)) -- not an invalid value.
+   ZeroRow: an N x 4 array of quaternion rows one of which has (near-)zero norm, which cannot be normalised. *)
+Inductive tag := Valid | NotOrtho | Reflect | BadRow | NotAlgebra | WrongShape | AltForm | ZeroRow.
 Inductive shape := Sq (n : nat) | Vec (n : nat) | Rect (r c : nat) | NonArray.   (* NonArray: a list element that is no ndarray *)
 Inductive item := Arr (s : shape) (t : tag).
 Inductive exc := ValueError | TypeError | IndexError | AssertionError | AttributeError.
@@ -36,7 +37,7 @@ Definition itag (it : item) : tag := let '(Arr _ t) := it in t.
 Definition tag_eqb (a b : tag) : bool :=
   match a, b with
   | Valid, Valid | NotOrtho, NotOrtho | Reflect, Reflect | BadRow, BadRow | NotAlgebra, NotAlgebra
-  | WrongShape, WrongShape | AltForm, AltForm => true
+  | WrongShape, WrongShape | AltForm, AltForm | ZeroRow, ZeroRow => true
   | _, _ => false end.
 
 (* ndarray.shape ; [] for a non-array *)
@@ -87,6 +88,10 @@ Definition is_twist (c : cls) : bool := match c with cTw2 | cTw3 => true | _ => 
 (* SMUserList._import returns None for a rejected value (pose classes, UnitQuaternion) and the list path of arghandler
    raises ValueError when any element came back None (fix f16dbda); Twist._import raises TypeError itself *)
 
+(* UnitQuaternion(N x 4 array): [base.unit(x) for x in s]; base.unit raises ValueError for a row of (near-)zero norm *)
+Definition uq_rows (t : tag) (r : nat) : result (list slot) :=
+  if tag_eqb t ZeroRow then Err ValueError else Ok (repeat Made r).
+
 (* ---- constructor fall-through after arghandler returned False for a bare ndarray ---- *)
 Definition fallthrough (c : cls) (it : item) : result (list slot) :=
   let '(Arr s t) := it in
@@ -109,9 +114,9 @@ Definition fallthrough (c : cls) (it : item) : result (list slot) :=
       match dims s with
       | [_] => Err IndexError
       | [3; 3] => if rot_ok t then Ok [Conv it] else Err ValueError
-      | [4; 4] => if hom_ok t then Ok [Conv it]
-                  else Ok (repeat (Conv it) 4)   (* STILL OPEN: a 4x4 that fails ishom is read as 4 quaternion rows and normalised *)
-      | [r; 4] => Ok (repeat Made r)             (* N x 4: the normalised rows *)
+      | [4; 4] => if hom_ok t then Ok [Conv it]  (* a valid SE(3) matrix: one quaternion from its rotation block *)
+                  else uq_rows t 4               (* any other 4x4 array: four quaternion rows (documented N x 4 form) *)
+      | [r; 4] => uq_rows t r                    (* N x 4: the normalised rows *)
       | _ => Err ValueError end
   | cTw2 | cTw3 => Err TypeError              (* not reached: _import raised already *)
   end.
@@ -154,8 +159,8 @@ Definition applicable (c : cls) (it : item) : bool :=
   | cUQ => match dims s with
            | [4] => tag_eqb t Valid || tag_eqb t NotOrtho
            | [3; 3] => grp_tag false t
-           | [4; 4] => grp_tag true t
-           | [_; 4] => tag_eqb t AltForm
+           | [4; 4] => tag_eqb t Valid || tag_eqb t AltForm || tag_eqb t ZeroRow
+           | [_; 4] => tag_eqb t AltForm || tag_eqb t ZeroRow
            | _ => tag_eqb t WrongShape end
   | cTw3 => if dims_eqb (dims s) [6] then tag_eqb t Valid
             else if is_sq s 4 then tag_eqb t Valid || tag_eqb t NotAlgebra else tag_eqb t WrongShape
